@@ -50,6 +50,8 @@ type c16 struct {
 	stallN   int // yields inside instrumented thunks
 	inEval   int // tasks currently inside a Get
 	overlap  bool
+	collect  bool
+	subs     []c16sub
 }
 
 func (c *c16) counter(name string) *c16counter {
@@ -342,7 +344,26 @@ func (n *ev) strict() int {
 	panic("strict")
 }
 
+// buildEval builds the lazy.Eval of n; while c.collect is set (the build of the root, not the builds that happen later
+// inside thunks) every sub-program is remembered together with its strict value: a sub-program is an Eval in its own
+// right and may be asked for its value before or after the program it is part of.
 func (c *c16) buildEval(n *ev, path string) lazy.Eval[int] {
+	e := c.buildEval1(n, path)
+	if c.collect && len(c.subs) < 24 {
+		var sb strings.Builder
+		n.write(&sb)
+		c.subs = append(c.subs, c16sub{e: e, want: n.strict(), desc: sb.String()})
+	}
+	return e
+}
+
+type c16sub struct {
+	e    lazy.Eval[int]
+	want int
+	desc string
+}
+
+func (c *c16) buildEval1(n *ev, path string) lazy.Eval[int] {
 	switch n.op {
 	case evZero:
 		return lazy.Eval[int]{}
@@ -434,10 +455,48 @@ func (c *c16) evalTree() {
 	} else {
 		r.Case = "eval-single"
 	}
+	c.collect = true
 	e := c.buildEval(root, "r")
+	c.collect = false
 	for i := 0; i < nTasks; i++ {
 		reps := r.Range(1, 2, "reps")
+		// some evaluators also ask sub-programs (Evals the root was derived from) for their value, before or after the root
+		var mine []c16sub
+		subFirst := false
+		if len(c.subs) > 1 && r.Bool(1, 3, "alsoSubPrograms") {
+			for k := r.Range(1, 2, "nSubs"); k > 0; k-- {
+				mine = append(mine, c.subs[r.Choose(len(c.subs)-1, "sub")]) // the last one is the root itself
+			}
+			subFirst = r.Choose(2, "subFirst") == 1
+		}
+		askSubs := func(t *sim.Task) {
+			for _, sp := range mine {
+				t.Yield("get-sub")
+				c.inEval++
+				v := sp.e.Get()
+				r.Gate("ret")
+				c.inEval--
+				r.Probe("sub-programs-evaluated")
+				if v != sp.want {
+					r.Violate("wrong-value", "sub-program %s of Eval %s evaluated to %d, strict evaluation gives %d", sp.desc, sb.String(), v, sp.want)
+					return
+				}
+			}
+		}
 		r.Go(fmt.Sprintf("evaluator%d", i), func(t *sim.Task) {
+			defer func() {
+				if p := recover(); p != nil {
+					r.Violate("get-panic", "Get of a sub-program panicked: %v", p)
+				}
+			}()
+			if subFirst {
+				askSubs(t)
+			}
+			defer func() {
+				if !subFirst && !r.Failed() {
+					askSubs(t)
+				}
+			}()
 			for j := 0; j < reps; j++ {
 				t.Yield("get")
 				func() {
